@@ -54,6 +54,39 @@ def run(ck, prog):
                 atoms.discard(a)
                 inner |= ABS_REG[a].atoms()
         atoms |= inner
+        extra = atoms - {"D", "DM", "N"}
+        if extra and extra <= {"npos", "nneg", "nneut"} and regime == "DM>0":
+            # a branch on the charge counts.  Whether (counts, DM) combinations are realisable is delta-max's business (C03), with one exception
+            # that needs no search: compositions that certainly have deltaMax() > 0 (lemma, DESIGN.md C01: one charge type, or a run of five
+            # like charges next to the other sign, plus five neutral / like residues give a blob whose sigma differs from the global one).  A row
+            # that answers -1 on the counts alone and contains such a composition answers -1 where delta-max is positive.
+            from lcsa.dt import feasible_with
+            from lcsa.sym import fmt_conds
+            # representative compositions (n+, n-, n0) of the families of the lemma
+            families = {"only negative charges and at least five neutral residues": [(0, 1, 5), (0, 3, 6), (0, 10, 10)],
+                        "only positive charges and at least five neutral residues": [(1, 0, 5), (3, 0, 6), (10, 0, 10)],
+                        "five or more negative charges and a positive one": [(1, 5, 0), (2, 6, 3), (1, 9, 10)],
+                        "five or more positive charges and a negative one": [(5, 1, 0), (6, 2, 3), (9, 1, 10)]}
+            hit = False
+            for conds, out in code:
+                if hit or not (isinstance(out, Rat) and out.is_const() and out.const_value() < 0):
+                    continue
+                for fam, reps in families.items():
+                    for (a_, b_, c_) in reps:
+                        fix = [Lin({"npos": 1}, -a_, "=="), Lin({"nneg": 1}, -b_, "=="), Lin({"nneut": 1}, -c_, "=="), Lin({"N": 1}, -(a_ + b_ + c_), "==")]
+                        # the row holds at this composition whatever delta() and deltaMax() > 0 are: its negation has no solution there
+                        inside = feasible_with(conds, dom + fix, set(pos)) is not None
+                        outside = feasible_with([("not", ("and", list(conds)))] if conds else [False], dom + fix, set(pos))
+                        if inside and outside is None:
+                            hit = True
+                            ck.ob("DT", construct, False, expected="-1 only when deltaMax() == 0",
+                                  found={"returns": repr(out), "when": fmt_conds(conds), "e.g. (n+, n-, n0)": [a_, b_, c_], "family": fam},
+                                  slot="sentinel-on-counts", where=f.loc(), note="sequences with %s have deltaMax() > 0: kappa is defined for them" % fam)
+                            break
+                    if hit:
+                        break
+            if hit:
+                continue
         ck.shape(atoms <= {"D", "DM", "N"}, "kappa: branches on %s besides delta(), deltaMax() and the length" % sorted(atoms - {"D", "DM", "N"}), f.loc())
         if regime == "DM>0":
             dom = dom + [Lin({"N": -1}, 6, "<=")]
@@ -91,7 +124,7 @@ def run(ck, prog):
     ck.attempt(_delta_nonneg, ck, prog)
     ck.attempt(_dmax_nonneg, ck, prog)
     # (a getter that is more than a forward and whose whole table was just compared needs no forwarding check)
-    check_api(ck, prog, ([] if decided_api else [("get_kappa", "kappa", None)]) + [("get_delta", "delta", None), ("get_deltaMax", "deltaMax", None)])
+    ck.attempt(check_api, ck, prog, ([] if decided_api else [("get_kappa", "kappa", None)]) + [("get_delta", "delta", None), ("get_deltaMax", "deltaMax", None)])
     ck.floor("kappa paths", ck.analysed.get("kappa paths", 0), 3)
 
 
